@@ -8,5 +8,5 @@ echo "== demo with patch:"; PYTHONPATH=/repo /venv/bin/python "$d/demo.py" > /tm
 for c in "$@"; do
   echo "== check $c with patch:"; (cd /verif && ./check $c 2>&1 | grep -v "^KNOWN-FINDING" | grep "VIOLATION\|^  clause\|^\[\|HARNESS" | cut -c1-260 | head -8; )
 done
-git checkout -- . ; git status --short | head -3
+git apply -R "$d/patch.diff"; git status --short | head -3
 echo "== demo without patch:"; PYTHONPATH=/repo /venv/bin/python "$d/demo.py" > /tmp/kv/demo.out 2>&1; echo "exit $?"
